@@ -1735,21 +1735,27 @@ func (m *Machine) recoverFinalPhase() {
 	m.activeStatesMx.RUnlock()
 	found := false
 
-	// walk over enter/exits and remove states after the last step,
-	// as their final handlers haven't been executed
-	for _, s := range finals {
+	// walk over exits/enters and roll back the states from the last step
+	// onwards, as their final handlers haven't been completed
+	statesBefore := t.StatesBefore()
+	for i, s := range finals {
+		isEnter := i >= len(t.Exits)
 
-		if t.latestHandlerToState == s {
+		if t.latestHandlerToState == s && t.latestHandlerIsEnter == isEnter {
 			found = true
 		}
 		if !found {
 			continue
 		}
 
-		if t.latestHandlerIsEnter {
-			activeStates = slicesWithout(activeStates, s)
-		} else {
-			activeStates = append(activeStates, s)
+		if isEnter {
+			// deactivate, unless it's a re-activated multi state
+			if !slices.Contains(statesBefore, s) {
+				activeStates = slicesWithout(activeStates, s)
+			}
+		} else if !slices.Contains(activeStates, s) {
+			// re-activate
+			activeStates = append(slices.Clone(activeStates), s)
 		}
 	}
 
